@@ -69,6 +69,7 @@ func profile() *sim.Profile {
 
 func doOne() int {
 	p := profile()
+	loadKnown(*known, *prop)
 	plan, res, g := sim.Generate(p, *one)
 	b, _ := json.Marshal(g.Cfg)
 	fmt.Printf("run seed %d cfg %s\nworld %+v\n", *one, b, *plan.World)
@@ -81,10 +82,11 @@ func doOne() int {
 
 func doDet() int {
 	p := profile()
+	loadKnown(*known, *prop)
 	for r := 0; r < *detN; r++ {
 		rs := sim.Mix(*seed, 0, uint64(r))
 		_, res, _ := sim.Generate(p, rs)
-		fmt.Printf("%d %s %d %v\n", rs, res.LogHash, res.NSteps, sim.FailRules(res))
+		fmt.Printf("%d %s %d %v %q %q\n", rs, res.LogHash, res.NSteps, sim.FailRules(res), res.OtherRule, res.Quiet)
 	}
 	return 0
 }
